@@ -1,0 +1,124 @@
+//go:build verif
+// +build verif
+
+// Verification hook (add-only, build tag `verif`): lets a harness drive the node's own
+// distributed key generation (groupInitContext / groupNodeInfo in this package) for all n
+// members of a group inside one process.  Thin wrappers only: every key, share and
+// aggregate is produced by the unexported production code.
+//
+// API
+//
+//	VerifNewNode(seed, selfId, groupHash, members) *VerifNode
+//	    one member's DKG state, built with the production constructor newGroupInitContext ->
+//	    NewGroupNodeInfo.  seed is the miner's SelfMinerInfo.SecretSeed; the per-group secret is
+//	    derived from it and groupHash exactly as in production (GenSecretForGroup).  The threshold
+//	    is NOT a parameter: the node derives it as model.Param.GetGroupK(len(members)), so
+//	    model.Param must be initialised (model.InitParam(...), or at least Param.SSSSThreshold).
+//	    Returns nil if a member id is invalid (zero), as production does.
+//	(*VerifNode).SharesToSend() map[string]model.SharePiece
+//	    production GenSharePieces(): key = receiver id (groupsig.ID.GetHexString()), value =
+//	    {Share: f(receiver id), Pub: dealer's public key a0*G2}.
+//	(*VerifNode).Receive(from, piece) int
+//	    production HandleSharePiece(): 0 = stored, 1 = all n pieces present and keys aggregated,
+//	    -1 = duplicate sender / aggregation failed.
+//	(*VerifNode).SignSeckey() / GroupPubkey()
+//	    outputs of the aggregation (zero values before Receive returned 1).
+//	(*VerifNode).SeedSeckey() / SeedPubkey()   the dealer's secret a0 and its public key.
+//	(*VerifNode).Threshold() / ReceivedCount() / SelfId()
+//	VerifRunDKG(seeds, members, groupHash) []*VerifNode
+//	    convenience: every member deals, every member receives the pieces in member order;
+//	    returns the n completed nodes (nil if any step did not complete).
+package group_create
+
+import (
+	"strconv"
+
+	"com.tuntun.rangers/node/src/common"
+	"com.tuntun.rangers/node/src/consensus/base"
+	"com.tuntun.rangers/node/src/consensus/groupsig"
+	"com.tuntun.rangers/node/src/consensus/model"
+	"com.tuntun.rangers/node/src/middleware/log"
+	"com.tuntun.rangers/node/src/middleware/types"
+)
+
+// VerifNode is one group member's key-generation state.
+type VerifNode struct {
+	self groupsig.ID
+	ctx  *groupInitContext
+}
+
+// verifEnsureLogger gives the package the logger groupCreateProcessor.Init would install
+// (handleSharePiece logs unconditionally).
+func verifEnsureLogger() {
+	if groupCreateLogger == nil {
+		groupCreateLogger = log.GetLoggerByIndex(log.GroupCreateLogConfig, strconv.Itoa(common.InstanceIndex))
+	}
+	if groupCreateDebugLogger == nil {
+		groupCreateDebugLogger = log.GetLoggerByIndex(log.GroupCreateDebugLogConfig, strconv.Itoa(common.InstanceIndex))
+	}
+}
+
+func VerifNewNode(seed base.Rand, selfId groupsig.ID, groupHash common.Hash, members []groupsig.ID) *VerifNode {
+	verifEnsureLogger()
+	mi := &model.SelfMinerInfo{SecretSeed: seed}
+	mi.ID = selfId
+	mems := make([]groupsig.ID, len(members))
+	copy(mems, members)
+	info := &model.GroupInitInfo{
+		GroupHeader:  &types.GroupHeader{Hash: groupHash},
+		GroupMembers: mems,
+	}
+	ctx := newGroupInitContext(info, nil, mi)
+	if ctx == nil {
+		return nil
+	}
+	return &VerifNode{self: selfId, ctx: ctx}
+}
+
+func (n *VerifNode) SelfId() groupsig.ID { return n.self }
+
+func (n *VerifNode) SharesToSend() map[string]model.SharePiece { return n.ctx.GenSharePieces() }
+
+func (n *VerifNode) Receive(from groupsig.ID, piece model.SharePiece) int {
+	p := piece
+	return n.ctx.HandleSharePiece(from, &p)
+}
+
+func (n *VerifNode) SignSeckey() groupsig.Seckey  { return n.ctx.nodeInfo.getSignSecKey() }
+func (n *VerifNode) GroupPubkey() groupsig.Pubkey { return n.ctx.nodeInfo.getGroupPubKey() }
+func (n *VerifNode) SeedSeckey() groupsig.Seckey  { return n.ctx.nodeInfo.genSeedSecKey() }
+func (n *VerifNode) SeedPubkey() groupsig.Pubkey  { return n.ctx.nodeInfo.getSeedPubKey() }
+func (n *VerifNode) Threshold() int               { return n.ctx.nodeInfo.threshold() }
+func (n *VerifNode) ReceivedCount() int           { return n.ctx.nodeInfo.receivedSharePieceCount() }
+
+func VerifRunDKG(seeds []base.Rand, members []groupsig.ID, groupHash common.Hash) []*VerifNode {
+	if len(seeds) != len(members) {
+		return nil
+	}
+	nodes := make([]*VerifNode, len(members))
+	dealt := make([]map[string]model.SharePiece, len(members))
+	for i := range members {
+		nodes[i] = VerifNewNode(seeds[i], members[i], groupHash, members)
+		if nodes[i] == nil {
+			return nil
+		}
+		dealt[i] = nodes[i].SharesToSend()
+	}
+	for i := range members {
+		key := members[i].GetHexString()
+		for j := range members {
+			piece, ok := dealt[j][key]
+			if !ok {
+				return nil
+			}
+			want := 0
+			if j == len(members)-1 {
+				want = 1
+			}
+			if nodes[i].Receive(members[j], piece) != want {
+				return nil
+			}
+		}
+	}
+	return nodes
+}
